@@ -181,3 +181,36 @@ Definition step_mop (s : dstate) (o : mop) : dstate :=
   match apply_mop s o with Some s' => s' | None => s end.
 
 Definition run_mops (s : dstate) (ops : list mop) : dstate := fold_left step_mop ops s.
+
+(* ---------- the shift pass (DetailedPlacer::runShiftsOnCells) ----------
+   The new x of the selected cells are the dual values of a min-cost flow solved by lemon's network
+   simplex (not modelled).  What IS modelled is the constraint system the C++ builds from the row
+   structure: for a selected cell c
+     - successor selected too:   x_next >= x_c + width_c            (arc next -> c, cost -width_c)
+     - predecessor not selected: x_c >= boundaryBefore(c)           (arc c -> fixed, cost -boundary)
+     - successor not selected:   x_c <= boundaryAfter(c) - width_c  (arc fixed -> c)
+   `shift_ok` says that a vector of new positions satisfies these constraints (dual feasibility of the
+   positional arcs); `apply_shift` writes the positions (placement_.cellX_[c] = pos). *)
+Definition in_shift (xs : list (nat * Z)) (c : pcell) : bool := existsb (fun p => Nat.eqb (fst p) (p_id c)) xs.
+Definition new_x (xs : list (nat * Z)) (c : pcell) : Z :=
+  match find (fun p => Nat.eqb (fst p) (p_id c)) xs with Some p => snd p | None => p_x c end.
+Definition move_cell (xs : list (nat * Z)) (c : pcell) : pcell :=
+  {| p_id := p_id c; p_x := new_x xs c; p_w := p_w c; p_pol := p_pol c; p_o := p_o c |}.
+Definition apply_shift (s : dstate) (xs : list (nat * Z)) : dstate :=
+  {| d_rows := map (fun r => set_cells r (map (move_cell xs) (dr_cells r))) (d_rows s); d_loose := d_loose s |}.
+
+Fixpoint row_shift_ok (xs : list (nat * Z)) (prev_sel : bool) (prev_old_end prev_new_end hi : Z) (l : list pcell) : bool :=
+  match l with
+  | [] => true
+  | c :: r =>
+    let sel := in_shift xs c in
+    (if sel then (if prev_sel then prev_new_end <=? new_x xs c else prev_old_end <=? new_x xs c) else true) &&
+    (if sel then match r with
+                 | [] => new_x xs c + p_w c <=? hi
+                 | n :: _ => if in_shift xs n then true else new_x xs c + p_w c <=? p_x n
+                 end
+     else true) &&
+    row_shift_ok xs sel (p_x c + p_w c) (new_x xs c + p_w c) hi r
+  end.
+Definition shift_ok (s : dstate) (xs : list (nat * Z)) : bool :=
+  forallb (fun r => row_shift_ok xs false (dr_min r) (dr_min r) (dr_max r) (dr_cells r)) (d_rows s).
